@@ -4,7 +4,6 @@ verification, evidence, VIOLATION / KNOWN-FINDING lines.
 Exit codes: 0 held (possibly KNOWN-FINDING lines); 1 VIOLATION (replay verified in a
 fresh interpreter); 2 harness error (never reported as a pass)."""
 import collections
-import concurrent.futures as cf
 import faulthandler
 import hashlib
 import json
@@ -38,6 +37,7 @@ def _task(prop, tier, seed, indices, want_samples):
     agg = {'digests': [], 'violations': [], 'sigs': set(), 'faults': collections.Counter(),
            'probes': collections.Counter(), 'evals': 0, 'runs': 0, 'samples': [],
            'harness_error': None, 'sim_time': 0.0, 'components': collections.Counter()}
+    done_before = []
     for i in indices:
         faulthandler.dump_traceback_later(m.per_run_timeout, exit=True)
         try:
@@ -52,7 +52,8 @@ def _task(prop, tier, seed, indices, want_samples):
         agg['digests'].append((i, out['digest']))
         for v in out['violations']:
             agg['violations'].append({'index': i, 'clause': v['clause'], 'site': v['site'],
-                                      'detail': v.get('detail', ''), 'case': case})
+                                      'detail': v.get('detail', ''), 'case': case,
+                                      'prefix_indices': list(done_before)})
         agg['sigs'].update(out.get('sigs', ()))
         _merge(agg['faults'], out.get('faults', {}))
         _merge(agg['probes'], out.get('probes', {}))
@@ -62,21 +63,117 @@ def _task(prop, tier, seed, indices, want_samples):
         agg['runs'] += 1
         if i in want_samples:
             agg['samples'].append({'run': i, 'case': m.summarise(case), 'outcome': out.get('summary')})
+        done_before.append(i)
     return agg
+
+
+def _child_main(conn, prop, tier, seed, indices, want_samples):
+    try:
+        agg = _task(prop, tier, seed, indices, want_samples)
+    except BaseException:
+        agg = {'harness_error': 'batch %s: %s' % (indices[:1], traceback.format_exc())}
+    try:
+        conn.send(agg)
+    finally:
+        conn.close()
+    os._exit(0)
+
+
+def run_batches(prop, tier, seed, batches, workers, want_samples, budget, t0):
+    """One FRESH forked process per batch (the parent has imported everything and executed nothing), so
+    that state leaking between runs inside a process is confined to a batch and a violation can be replayed
+    exactly by re-executing the runs that preceded it in its batch. Yields aggregates; ('died', None) when a
+    child exits without reporting (crash or per-run timeout)."""
+    from multiprocessing.connection import wait as mpwait
+    ctx = multiprocessing.get_context('fork')
+    active = {}
+    it = iter(batches)
+    exhausted = False
+    stop = {'flag': False}
+    while True:
+        while not exhausted and not stop['flag'] and len(active) < workers:
+            if time.time() - t0 > budget:
+                exhausted = True
+                yield ('budget', None)
+                break
+            b = next(it, None)
+            if b is None:
+                exhausted = True
+                break
+            rc, wc = ctx.Pipe(duplex=False)
+            pr = ctx.Process(target=_child_main, args=(wc, prop, tier, seed, b, want_samples))
+            pr.start()
+            wc.close()
+            active[rc] = pr
+        if not active:
+            break
+        for rc in mpwait(list(active), timeout=5.0):
+            pr = active.pop(rc)
+            try:
+                agg = rc.recv()
+            except (EOFError, OSError):
+                agg = None
+            rc.close()
+            pr.join(30)
+            if agg is None:
+                yield ('died', None)
+            else:
+                cmd = yield ('agg', agg)
+                if cmd == 'stop':
+                    stop['flag'] = True
+        if stop['flag'] and not active:
+            break
+    for rc, pr in list(active.items()):
+        pr.terminate()
+        pr.join(5)
+
+
+def _eval_in_child(prop, prefix, case):
+    """Executes prefix cases then `case` in a fresh forked process; returns the violations of `case`."""
+    ctx = multiprocessing.get_context('fork')
+    rc, wc = ctx.Pipe(duplex=False)
+
+    def body(conn):
+        try:
+            m = get_machine(prop)
+            for pc in prefix:
+                try:
+                    m.execute(pc)
+                except Exception:
+                    pass
+            out = m.execute(case)
+            conn.send([dict(v) for v in out['violations']])
+        except BaseException:
+            conn.send(None)
+        finally:
+            conn.close()
+        os._exit(0)
+    pr = ctx.Process(target=body, args=(wc,))
+    pr.start()
+    wc.close()
+    try:
+        res = rc.recv() if rc.poll(3600) else None
+    except (EOFError, OSError):
+        res = None
+    rc.close()
+    pr.join(30)
+    if pr.is_alive():
+        pr.terminate()
+    return res
 
 
 def _worker_init():
     env.worker_setup()
 
 
-def write_replay(prop, seed, v, case, digest=None, minimised=None):
+def write_replay(prop, seed, v, case, digest=None, minimised=None, prefix=None):
     d = os.environ.get('VERIF_REPLAY_DIR') or os.path.join(VERIF, 'replays')
     os.makedirs(d, exist_ok=True)
     key = hashlib.sha256(dumps([v['clause'], v['site'], case]).encode()).hexdigest()[:12]
     path = os.path.join(d, '%s_%s.json' % (prop, key))
     doc = {'property': prop, 'seed': seed, 'run': v.get('index'),
            'violation': {'clause': v['clause'], 'site': v['site'], 'detail': v.get('detail', '')},
-           'case': case, 'digest': digest, 'minimised': minimised}
+           'case': case, 'prefix': prefix or [], 'digest': digest, 'minimised': minimised}
     with open(path, 'w') as f:
         json.dump(doc, f, indent=1, sort_keys=True)
     return path
@@ -88,6 +185,12 @@ def replay(prop, path, quiet=False):
     m = get_machine(prop)
     with open(path) as f:
         doc = json.load(f)
+    for pc in doc.get('prefix') or []:
+        # runs that preceded the failing one in its process (only recorded when the violation needs them)
+        try:
+            m.execute(pc)
+        except Exception:
+            pass
     out = m.execute(doc['case'])
     want = (doc['violation']['clause'], doc['violation']['site'])
     got = [v for v in out['violations'] if (v['clause'], v['site']) == want]
@@ -126,32 +229,25 @@ def run_check(prop, tier, seed=None):
            'probes': collections.Counter(), 'evals': 0, 'runs': 0, 'samples': [],
            'sim_time': 0.0, 'components': collections.Counter()}
     harness_error = None
-    ctx = multiprocessing.get_context('fork')
     stopped_early = False
+    env.worker_setup()          # import FlowCal and everything else once; children are forked from this clean state
+    get_machine(prop)
+    gen = run_batches(prop, tier, seed, batches, workers, want_samples, budget, t0)
     try:
-        with cf.ProcessPoolExecutor(max_workers=workers, mp_context=ctx,
-                                    initializer=_worker_init) as ex:
-            pending = set()
-            it = iter(batches)
-            done_submitting = False
-            while True:
-                while not done_submitting and len(pending) < 2 * workers:
-                    if time.time() - t0 > budget:
-                        done_submitting = True
-                        stopped_early = True
-                        break
-                    b = next(it, None)
-                    if b is None:
-                        done_submitting = True
-                        break
-                    pending.add(ex.submit(_task, prop, tier, seed, b, want_samples))
-                if not pending:
-                    break
-                done, pending = cf.wait(pending, return_when=cf.FIRST_COMPLETED)
-                for fu in done:
-                    agg = fu.result()
-                    if agg['harness_error']:
-                        harness_error = agg['harness_error']
+        msg = next(gen)
+        while True:
+            kind, agg = msg
+            cmd = None
+            if kind == 'budget':
+                stopped_early = True
+            elif kind == 'died':
+                harness_error = 'worker died or exceeded the per-run timeout (see traceback dump above)'
+                cmd = 'stop'
+            else:
+                if agg.get('harness_error'):
+                    harness_error = agg['harness_error']
+                    cmd = 'stop'
+                else:
                     tot['digests'] += agg['digests']
                     tot['violations'] += agg['violations']
                     tot['sigs'] |= agg['sigs']
@@ -161,18 +257,12 @@ def run_check(prop, tier, seed=None):
                     tot['runs'] += agg['runs']
                     tot['sim_time'] += agg['sim_time']
                     tot['samples'] += agg['samples']
-                if harness_error:
-                    for fu in pending:
-                        fu.cancel()
-                    break
-                # enough distinct violations collected: stop early
-                if len({(v['clause'], v['site']) for v in tot['violations']}) >= 12:
-                    for fu in pending:
-                        fu.cancel()
-                    stopped_early = True
-                    break
-    except cf.process.BrokenProcessPool:
-        harness_error = 'worker died or exceeded the per-run timeout (see traceback dump above)'
+                    if len({(v['clause'], v['site']) for v in tot['violations']}) >= 12:
+                        stopped_early = True
+                        cmd = 'stop'
+            msg = gen.send(cmd)
+    except StopIteration:
+        pass
     if harness_error:
         print('HARNESS-ERROR property=%s %s' % (prop, harness_error))
         return 2
@@ -198,24 +288,30 @@ def run_check(prop, tier, seed=None):
         print('KNOWN-FINDING: property=%s %s' % (prop, what))
     status = 0
     reported = []
-    env.worker_setup()
     for v in fresh[:3]:
         target = (v['clause'], v['site'])
-        mcase, n_exec, mv = shrink.minimise(m, v['case'], target,
-                                            wall_s=plan.get('shrink_s', 90.0))
+        ev = lambda pre, c: _eval_in_child(prop, pre, c)
+        prefix = []
+        mcase, n_exec, mv = shrink.minimise(m, v['case'], target, wall_s=plan.get('shrink_s', 90.0), evaluate=ev)
+        if mv is None and v.get('prefix_indices'):
+            # the violation depends on what ran before it in its process: replay needs (part of) that history
+            prefix = [m.generate(Rng(run_seed(prop, seed, j)), tier, j) for j in v['prefix_indices']]
+            prefix, mcase, n2, mv = shrink.minimise_with_prefix(m, prefix, v['case'], target,
+                                                               wall_s=plan.get('shrink_s', 90.0), evaluate=ev)
+            n_exec += n2
         if mv is None:
-            # did not reproduce in the parent process: replay the original case
             mcase, mv = v['case'], v
-            path = write_replay(prop, seed, v, mcase, minimised=False)
+            path = write_replay(prop, seed, v, mcase, minimised=False, prefix=prefix)
         else:
             vv = dict(mv)
             vv['index'] = v['index']
-            path = write_replay(prop, seed, vv, mcase, minimised=True)
+            path = write_replay(prop, seed, vv, mcase, minimised=True, prefix=prefix)
         rc = subprocess.run([sys.executable, os.path.join(VERIF, 'check'), prop, '--replay', path,
                              '--quiet'], capture_output=True, text=True, timeout=1800)
         if rc.returncode == 1:
             print('  violation %s @ %s: %s' % (v['clause'], v['site'], str(mv.get('detail', ''))[:600]))
-            print('  (run %d, minimised with %d executions)' % (v['index'], n_exec))
+            print('  (run %d, minimised with %d executions%s)' % (
+                v['index'], n_exec, ', needs %d preceding run(s) in the same process' % len(prefix) if prefix else ''))
             print('VIOLATION property=%s replay=%s' % (prop, path))
             reported.append(target)
             status = 1
